@@ -321,7 +321,7 @@ def run_replace(c) -> CaseResult:
 
 CHECK = Check(
     id="C16",
-    parts=[Part("programs", run, strategy=cases, budget={"quick": 360, "thorough": 5000}),
+    parts=[Part("programs", run, strategy=cases, budget={"quick": 360, "thorough": 12000}),
            Part("repeat", run_repeat, strategy=repeat_cases, budget={"quick": 8, "thorough": 80}),
            Part("replace", run_replace, strategy=replace_cases, budget={"quick": 12, "thorough": 100})],
     rule=("programs: Hypothesis-generated modules (rendered to source, exec'd, traced by the real TorchDynamo path of unit_scale): chains / "
